@@ -120,18 +120,18 @@ static size_t derTDec(u32* tag, const octet der[], size_t count)
 	if ((der[0] & 31) == 31)
 	{
 		// короткий код? лишний октет с нулем?
+		bool_t last = FALSE;
 		if (count < 2 || (der[1] & 127) == 0)
-			return FALSE;
-		for (t = 0; t_count < count;)
+			return SIZE_MAX;
+		for (t = 0; t_count < count && !last;)
 		{
-			t <<= 8, t |= der[t_count] & 127;
+			t <<= 7, t |= der[t_count] & 127;
 			// завершающий октет?
-			if ((der[t_count++] & 128) == 0)
-				break;
+			last = (der[t_count++] & 128) == 0;
 		}
 		// завершающий октет не найден?
 		// можно было обойтись коротким кодом?
-		if (t_count == count || t < 31)
+		if (!last || t < 31)
 			return SIZE_MAX;
 	}
 	// возврат 
